@@ -98,6 +98,11 @@ def jobs_for(tier):
         add(precond=prec, params=[(2, 2), (2, 2)], mpd=2, merge=False, graft="sgd", nesterov=False, bias_corr=True, decoupled=True, pf=2, sps=2, T=3, rebase=True, presence="symbolic", fixed=dict(mom=0, wd=0))
         # absent gradients: a block that misses the first refresh has no basis yet
         add(precond=prec, params=[(2, 2), (2, 2)], mpd=2, merge=False, graft="rmsprop", nesterov=False, bias_corr=True, decoupled=True, pf=1, sps=1, T=3, rebase=True, presence="symbolic", fixed=dict(mom=0, wd=0))
+        # inductive step: arbitrary re-based state AND arbitrary step number k (symbolic integer): refresh schedule, both bias corrections (power atoms
+        # with a symbolic exponent) and "basis already exists" decided for every k at once
+        add(precond=prec, params=[(2, 2)], mpd=2, merge=False, graft="adam", nesterov=True, bias_corr=True, decoupled=True, pf=3, sps=4, T=3, rebase=True, symbolic_step=True)
+        add(precond=prec, params=[(2, 2)], mpd=2, merge=False, graft=None, nesterov=False, bias_corr=True, decoupled=False, pf=2, sps=2, T=2, rebase=True, symbolic_step=True,
+            fixed=dict(mom=0))
         # dtype pairs: the stored basis has the parameter's dtype, the factor the preconditioner's
         for pd, fd in (("float32", "float32"), ("bfloat16", "float32"), ("float32", "float64"), ("float64", "float64")):
             add(precond=prec, params=[(2, 2)], mpd=2, merge=False, graft=None, nesterov=False, bias_corr=True, decoupled=True, pf=1, sps=1, T=3, rebase=True,
